@@ -536,6 +536,13 @@ func (m *Model) runStmt(key string, idx int, sp *StmtProg, params []pgwire.Param
 		case "retain", "ctx":
 		case "yield":
 			o.ev = append(o.ev, fmt.Sprintf("op %d yield", oi))
+		case "sleep":
+			o.ev = append(o.ev, fmt.Sprintf("op %d sleep", oi))
+		case "panic":
+			o.ev = append(o.ev, fmt.Sprintf("op %d panic", oi))
+			retClass = "panic"
+			retSpec = nil
+			return finish()
 		case "return":
 			if op.Err != nil {
 				retClass = "err"
